@@ -733,6 +733,12 @@ func (vr *voterecords) vote(
 		return false, false, nil
 	}
 
+	// NOTE if suffrage is already known, only the sign fact signed by the
+	// suffrage node is recorded
+	if suf, found, _ := vr.getSuffrage(); found && suf != nil && !suf.ExistsPublickey(node, signfact.Signer()) {
+		return false, false, nil
+	}
+
 	if vp != nil {
 		vr.vps[node.String()] = vp
 	}
